@@ -1,4 +1,5 @@
 import Ebu.Proofs.ConcTrace
+import Ebu.Proofs.ConcTermination
 import Ebu.Spec.Flow
 import Ebu.Proofs.Shutdown
 import Ebu.Model.Inflight
@@ -119,6 +120,15 @@ theorem maximal_run_delivers_everything (ρ : Nat → Nat) (progs : List (List E
     ∀ i th j, x.s.ths[i]? = some th → th.job = some j → x.s.sh.live j.ctx = true →
       Ebu.Conc.asyncEntersOf i x.tr = [Ebu.Conc.Obs.enter j.reg.rid j.ty j.v true] :=
   Ebu.Conc.maximal_run_delivers_everything ρ progs hr h hmax
+
+/-- `Wait` returns, and every goroutine finishes, after finitely many steps whatever the scheduler does: under the strict
+rank hypothesis every schedule is finite and can be continued to a quiescent end -/
+theorem wait_eventually_returns (ρ : Nat → Nat) (progs : List (List Ebu.Conc.Op)) (hr : Ebu.Conc.RankedStrict ρ progs) :
+    (∃ bound : Nat, ∀ (sched : List Nat) (s : Ebu.Conc.Sys),
+      Ebu.Conc.runSched (Ebu.Conc.initSys progs) sched = some s → sched.length ≤ bound) ∧
+    (∀ s, Ebu.Conc.Reachable progs s →
+      ∃ (sched : List Nat) (s2 : Ebu.Conc.Sys), Ebu.Conc.runSched s sched = some s2 ∧ s2.allDone ∧ s2.sh.inflight = 0) :=
+  ⟨Ebu.Conc.runs_terminate ρ progs hr, fun s h => Ebu.Conc.every_run_completes ρ progs hr s h⟩
 
 /-- the traced system is the plain one with bookkeeping: the two reachability notions coincide -/
 theorem trace_is_bookkeeping (progs : List (List Ebu.Conc.Op)) :
